@@ -193,6 +193,29 @@ def analyze(ctx, want):
     ctx.trust("rustc's type checker, trait solver (Send/Sync/Freeze answers) and borrow checker; std containers (Vec, Box, Arc, HashMap, String) own or share their contents as documented")
     dc = dyn_closures(F)
 
+    # ============================================================== determinism of hash iteration (C14.f)
+    # "every thread observes exactly the results of the same calls made sequentially": a std HashMap / HashSet with the default
+    # hasher (RandomState) is seeded per instance, so the order in which it is walked differs between threads and between runs;
+    # the crate's maps use the seedless Fx hasher.  Closed set: no walk over a randomly seeded table anywhere in the library.
+    if "C14.f" in want:
+        n_walks = 0
+        WALK = r"(::|>)(iter|iter_mut|into_iter|keys|values|values_mut|into_keys|into_values|drain|retain|extract_if)(::<.*>)?$"
+        for fn in sorted(F.fns.values(), key=lambda f: f.name):
+            if is_derived(fn):
+                continue
+            for bb, t in fn.calls():
+                if t.get("exp_outer") in ("trace!", "debug!", "info!", "warn!", "error!"):
+                    continue
+                nm = M.call_name(t)
+                m = re.search(r"std::collections::(HashMap|HashSet)(::)?<", nm)
+                if not m or not re.search(WALK, nm):
+                    continue
+                n_walks += 1
+                seedless = re.search(r"FxBuildHasher|BuildHasherDefault<", nm) is not None
+                ob("C14.f", "hash-table-walk-is-seedless:%s" % M.short_name(fn.name), seedless,
+                   "%s walks %s%s" % (M.short_name(fn.name), M.short_name(nm)[:80], "" if seedless else " — a table with the default (randomly seeded) hasher: its order differs between threads and runs"), fn.loc(bb))
+        ctx.floor("C14.f", "walks over hash tables", n_walks, 2)
+
     # ============================================================== A5 walk (C12.a/b, C14.a/e)
     roots = ["scanner::Scanner", "internal::scanner_impl::ScannerImpl", "find_matches::FindMatches", "internal::find_matches_impl::FindMatchesImpl",
              "scanner_builder::ScannerBuilder", "scanner_builder::SimpleScannerBuilder"]
